@@ -41,6 +41,32 @@ Theorem C05_documented_conversions :
 Proof. vm_compute. repeat split. Qed.
 Print Assumptions C05_documented_conversions.
 
+(* numbers: an integer becomes the nearest floating-point value (ties to even), a floating-point value the nearest integer
+   (std::round: ties away from zero) or a runtime error when the integer type cannot hold it, float32 widens exactly *)
+Theorem C05_float_to_int_is_nearest : forall prec ew bits s m e,
+  float_decode prec ew bits = Some (s, m, e) -> (e < 0)%Z ->
+  exists a, float_round prec ew bits = Some (if s then (- a)%Z else a) /\
+            (2 * Z.abs (m - a * 2 ^ (- e)) <= 2 ^ (- e))%Z /\
+            ((2 * Z.abs (m - a * 2 ^ (- e)) = 2 ^ (- e))%Z -> (m < a * 2 ^ (- e))%Z).
+Proof. exact float_round_nearest. Qed.
+Print Assumptions C05_float_to_int_is_nearest.
+
+Theorem C05_small_integers_convert_exactly : forall z, (-4096 <= z <= 4096)%Z ->
+  float_round 24 8 (z_to_float 24 8 z) = Some z /\ float_round 53 11 (z_to_float 53 11 z) = Some z.
+Proof. exact int_float_exact_bounded. Qed.
+Print Assumptions C05_small_integers_convert_exactly.
+
+Theorem C05_number_conversions :
+  conv [] 9 (EPrim PFloat32) (EPrim PInt32) (VBits 1075838976) = Some (VInt 3)                (* 2.5f -> 3 *)
+  /\ conv [] 9 (EPrim PFloat32) (EPrim PInt32) (VBits 3223322624) = Some (VInt (-3))         (* -2.5f -> -3 *)
+  /\ conv [] 9 (EPrim PFloat32) (EPrim PInt32) (VBits 1325400064) = None                     (* 2^31 as float: runtime error *)
+  /\ conv [] 9 (EPrim PFloat64) (EPrim PInt64) (VBits 4890909195324358656) = None            (* 2^63 as double: runtime error *)
+  /\ conv [] 9 (EPrim PFloat64) (EPrim PUint8) (VBits 4643176031446892544) = Some (VInt 255) (* 255.0 *)
+  /\ conv [] 9 (EPrim PInt32) (EPrim PFloat32) (VInt 16777217) = Some (VBits 1266679808)     (* rounds to 16777216.0f *)
+  /\ conv [] 9 (EPrim PFloat32) (EPrim PFloat64) (VBits 1075838976) = Some (VBits 4612811918334230528).
+Proof. vm_compute. repeat split. Qed.
+Print Assumptions C05_number_conversions.
+
 (* the hypothesis of the identity theorem is satisfiable *)
 Theorem C05_hypotheses_satisfiable :
   vwf [] 9 (EUnion true [r0; EVec None (EOpt (EPrim PFloat64))]) (VCase 1 (VSeq [VNone; VSome (VBits 5)])) = true
